@@ -22,6 +22,14 @@ in leaf.py (explicit wraps at every unsigned operation / conversion, C truth val
 Statements are rendered in continuation-passing style with SSA names, so every `if` duplicates
 the rest of the block; the effect summary of a path is computed here, per return point.
 
+Two groups of functions (FUNCTIONS, `group`): "containers" -> Gen_effects.v (HPlans.v,
+Bridge_effects.v) and "load" = the decoder glue of builder_callbacks.c and cbor_load ->
+Gen_effects_load.v (HPlansLoad.v, Bridge_effects_load.v).  The glue entries are `precise`: switch /
+break, forward goto, struct locals named by their type, struct-returning callees, per-callee write
+footprints, `post` fields re-read after an opaque call as fresh inputs g_<name>, cbor_decref as
+an ORDERED event, and loops cut at their heads (one plan from the entry, one from each loop head;
+arriving at a loop head is the outcome RLoop k).
+
 A construct outside the subset raises Unsupported: the function then falls back to the
 hand-written plan of HPlans.v (`G<fn>_supported := false`) and is tied by correspondence only."""
 import os, json
@@ -111,7 +119,7 @@ def int_width(t, cx):
         return 32, False
     raise Unsupported("type " + t)
 
-ENUM_TYPES = {"cbor_type", "_cbor_dst_metadata", "cbor_int_width", "cbor_float_width", "_cbor_ctrl"}
+ENUM_TYPES = {"cbor_type", "_cbor_dst_metadata", "cbor_int_width", "cbor_float_width", "_cbor_ctrl", "cbor_error_code"}
 
 def node_kind_of_type(n, cx):
     """'ptr' | 'int' | 'obj' for the type of an expression node"""
@@ -141,10 +149,16 @@ def tok_text(t):
         return "(PSlot %s %s \"%s\")" % (tok_text(t[1]), t[2], t[3])
     if k == "new":
         return "(pnew ok_%d %d)" % (t[1], t[1])     # the result of a refused request is NULL
+    if k == "local":
+        return "(PLocal \"%s\")" % t[1]
+    if k == "res":
+        return "(PRes %d)" % t[1]
+    if k == "post":
+        return "(PPost %s \"%s\")" % (tok_text(t[1]), t[2])
     raise Unsupported("pointer token " + str(k))
 
 def tok_key(t):
-    """canonical order of tokens: null < arg i < field < slot < new k (documented in HPlans.v)"""
+    """canonical order of tokens: null < arg i < field < slot < new k < local < res < post (HPlans.v)"""
     k = t[0]
     if k == "null":
         return (0,)
@@ -156,6 +170,12 @@ def tok_key(t):
         return (3, tok_key(t[1]), t[3], t[2])
     if k == "new":
         return (4, t[1])
+    if k == "local":
+        return (5, t[1])
+    if k == "res":
+        return (6, t[1])
+    if k == "post":
+        return (7, tok_key(t[1]), t[2])
     return (9,)
 
 def wrapz(w, e):
@@ -174,7 +194,12 @@ class St:
         self.nalloc = 0
         self.ncall = 0
         self.stored = set()  # base tokens that were stored through on this path
-        self.havoc = False   # an opaque call happened: integer fields may have changed
+        self.havoc = False   # a call of unknown footprint happened: every field may have changed
+        self.unknown = set() # locations invalidated by a call with a declared footprint
+        self.reach = ()      # tokens handed to a call of unknown footprint: everything reached through them is unknown
+        self.inval = {}      # location -> how many times it was invalidated
+        self.copies = {}     # (token, path) of a struct local -> (token, path) of the struct it was assigned from
+        self.nres = 0        # calls returning a struct by value
         self.lets = []       # pending `let`s
     def clone(self):
         s = St()
@@ -182,6 +207,7 @@ class St:
         s.reqs = list(self.reqs); s.effs = list(self.effs)
         s.nalloc, s.ncall = self.nalloc, self.ncall
         s.stored = set(self.stored); s.havoc = self.havoc
+        s.unknown = set(self.unknown); s.reach = self.reach; s.inval = dict(self.inval); s.copies = dict(self.copies); s.nres = self.nres
         s.lets = []
         return s
 
@@ -193,6 +219,10 @@ class Cx:
         self.max_call = 0
         self.depth = 0
         self.byvalue = set()     # tokens of structs passed by value: no callee can change them
+        self.labels = {}         # label decl id -> statements that follow the label
+        self.loops = {}          # loop node id -> index (source order)
+        self.loop_rest = {}      # loop index -> (loop node, continuation) at its first encounter
+        self.segment = None      # None = from the function entry; k = from the head of loop k
     def fresh(self, base):
         self.n += 1
         return "%s_%d" % (base, self.n)
@@ -245,10 +275,62 @@ ALLOC = {"_cbor_malloc": "ReqMalloc", "_cbor_realloc": "ReqRealloc", "_cbor_allo
 REFCOUNT = {"cbor_incref": "Incref", "cbor_move": "Move", "cbor_intermediate_decref": "Decref"}
 PURE_LEAF = {"_cbor_safe_to_multiply": "fb_cbor_safe_to_multiply", "_cbor_safe_to_add": "fb_cbor_safe_to_add",
              "_cbor_safe_signaling_add": "fb_cbor_safe_signaling_add", "_cbor_highest_bit": "fb_cbor_highest_bit"}
-EFF_RANK = {"Incref": 1, "Decref": 2, "Move": 3, "Store": 4, "Fill": 5, "SetPtr": 6, "SetInt": 7}
+EFF_RANK = {"Incref": 1, "Decref": 2, "Move": 3, "Store": 4, "Fill": 5, "Copy": 6, "SetPtr": 7, "SetInt": 8}
 
 # ------------------------------------------------------------------------------------------
 # expressions
+
+def derives(t, a):
+    """is token t the token a, or built from it (a field / slot / post-call value reached through a)?"""
+    while True:
+        if t == a:
+            return True
+        if t[0] in ("field", "slot", "post"):
+            t = t[1]
+        else:
+            return False
+
+def resolve(st, tok, path):
+    """a struct local that was assigned from another struct (a call result) reads through to it"""
+    for i in range(len(path), -1, -1):
+        src = st.copies.get((tok, path[:i]))
+        if src is not None:
+            return src[0], src[1] + path[i:]
+    return tok, path
+
+def is_invalid(key, st, cx):
+    return key in st.unknown or (st.havoc and key[0] not in cx.byvalue)
+
+def invalidate(st, cx, keys=None, args=()):
+    """a call may have changed: the listed locations (declared footprint of a listed callee), or
+       (keys=None, unknown footprint) everything reachable from its pointer arguments `args` plus
+       the fields the table declares as `post`; (keys=None, args=None) everything"""
+    post = cx.spec.get("post", {})
+    if keys is None and args is None:
+        st.havoc = True
+        for k in list(st.ints):
+            if k[0] not in cx.byvalue and k[0][0] != "new":
+                del st.ints[k]
+        for k in list(st.ptrs):
+            if k[0] not in cx.byvalue and k[0][0] != "new":
+                del st.ptrs[k]
+        for k in post:
+            st.inval[k] = st.inval.get(k, 0) + 1
+        return
+    if keys is None:
+        keys = set(post)
+        for k in list(st.ints) + list(st.ptrs) + list(cx.spec["fields"]):
+            if any(derives(k[0], a) for a in args):
+                keys.add(k)
+        st.reach = st.reach + tuple(args)
+    for k in keys:
+        st.unknown.add(k)
+        st.inval[k] = st.inval.get(k, 0) + 1
+        st.ints.pop(k, None)
+        st.ptrs.pop(k, None)
+
+def reach_invalid(key, st):
+    return any(derives(key[0], a) for a in st.reach)
 
 def let_int(st, cx, base, text):
     """bind an integer value to a fresh SSA name"""
@@ -296,7 +378,8 @@ def LV(n, st, cx):
         drop = bt.startswith("union ")
         name = n.get("name")
         if blv[0] == "loc":
-            return ("loc", blv[1], blv[2] if drop else blv[2] + (name,))
+            t2, p2 = resolve(st, blv[1], blv[2] if drop else blv[2] + (name,))
+            return ("loc", t2, p2)
         if blv[0] == "slot":
             return ("slot", blv[1], blv[2], blv[3] if drop else blv[3] + (name,))
         raise Unsupported("member of a local variable")
@@ -319,18 +402,23 @@ def LV(n, st, cx):
     raise Unsupported("lvalue " + str(k))
 
 def read(lv, n, st, cx):
-    kind = node_kind_of_type(n, cx)
     if lv[0] == "var":
         v = st.env[lv[1]]
         if v[0] == "uninit":
             raise Unsupported("read of the uninitialised local " + str(lv[2]))
+        if v[0] == "stale":
+            raise Unsupported("scalar local %s is live across a loop" % str(lv[2]))
         return v
+    kind = node_kind_of_type(n, cx)
     if lv[0] == "loc":
         key = (lv[1], lv[2])
         if kind == "int":
             if key in st.ints:
                 return ("int", st.ints[key])
-            if st.havoc and lv[1] not in cx.byvalue:
+            if is_invalid(key, st, cx) or reach_invalid(key, st):
+                nm = cx.spec.get("post", {}).get(key)
+                if nm is not None and st.inval.get(key, 0) == 1:
+                    return ("int", "g_" + nm)      # its value after the one call that may have changed it
                 raise Unsupported("integer field read after an opaque call")
             nm = cx.field_name(key)
             if nm is None:
@@ -339,7 +427,9 @@ def read(lv, n, st, cx):
         if kind == "ptr":
             if key in st.ptrs:
                 return st.ptrs[key]
-            if st.havoc and lv[1] not in cx.byvalue:
+            if is_invalid(key, st, cx) or reach_invalid(key, st):
+                if lv[2] and cx.spec.get("post") is not None:
+                    return ("ptr", ("post", lv[1], path_text(lv[2])), ())   # its value after the last such call
                 raise Unsupported("pointer field read after an opaque call")
             if lv[1][0] == "new":
                 raise Unsupported("read of an unwritten field of a fresh block")
@@ -350,7 +440,7 @@ def read(lv, n, st, cx):
     if lv[0] == "slot":
         if kind != "ptr":
             raise Unsupported("read of a non-pointer slot")
-        if lv[1] in st.stored or st.havoc:
+        if lv[1] in st.stored or st.havoc or st.unknown:
             raise Unsupported("slot read after a store through the same base")
         return ("ptr", ("slot", lv[1], lv[2], path_text(lv[3])), ())
     raise Unsupported("read")
@@ -367,6 +457,7 @@ def write(lv, val, n, st, cx):
         if val[0] == "int":
             nm = cx.field_name(key) or ("u_" + (path_text(lv[2]).replace(".", "_") or "obj"))
             st.ints[key] = let_int(st, cx, "f_" + nm, val[1])
+            st.unknown.discard(key)
             return
         if val[0] == "ptr":
             if val[2] != ():
@@ -374,9 +465,13 @@ def write(lv, val, n, st, cx):
             if not lv[2]:
                 raise Unsupported("store through a pointer to pointer")
             st.ptrs[key] = val
+            st.unknown.discard(key)
             return
         if val[0] == "init":
             write_init(lv[1], lv[2], val[1], st, cx)
+            return
+        if val[0] == "objv" and lv[1][0] == "local" and val[1][0] == "res":
+            st.copies[(lv[1], lv[2])] = (val[1], val[2])
             return
         raise Unsupported("struct copy")
     if lv[0] == "slot":
@@ -397,10 +492,12 @@ def write_init(tok, path, items, st, cx):
             key = (tok, path + sub)
             nm = cx.field_name(key) or ("u_" + path_text(path + sub).replace(".", "_"))
             st.ints[key] = let_int(st, cx, "f_" + nm, v[1])
+            st.unknown.discard(key)
         elif v[0] == "ptr":
             if v[2] != ():
                 raise Unsupported("interior pointer stored")
             st.ptrs[(tok, path + sub)] = v
+            st.unknown.discard((tok, path + sub))
         else:
             raise Unsupported("initialiser member")
 
@@ -531,6 +628,8 @@ def RV(n, st, cx):
             ta, tb = truth(va, st, cx), truth(vb, st, cx)
             return ("int", "(b2z (%s %s %s))" % (ta, "&&" if op == "&&" else "||", tb))
         va, vb = RV(a, st, cx), RV(b, st, cx)
+        if op == "+" and va[0] == "ptr" and va[2] == () and vb[0] == "int" and unconst(desugared(a)) in ("unsigned char*", "char*"):
+            return ("ptroff", va[1], vb[1])      # byte pointer plus offset: only ever a call argument
         if va[0] == "ptr" or vb[0] == "ptr":
             if op not in ("==", "!="):
                 raise Unsupported("pointer arithmetic")
@@ -560,11 +659,18 @@ def RV(n, st, cx):
             if lit.get("kind") == "IntegerLiteral" and int(lit["value"]) > 0 and not signed:
                 return ("int", "(%s / %s)" % (ea, eb))
             raise Unsupported("division")
+        if op == "%":
+            lit = cast.strip(b)
+            if lit.get("kind") == "IntegerLiteral" and int(lit["value"]) > 0 and not signed:
+                return ("int", "(%s mod %s)" % (ea, eb))
+            raise Unsupported("remainder")
         if op == ">>":
             return ("int", "(Z.shiftr %s %s)" % (ea, eb))
         if op == "<<":
             r = "(Z.shiftl %s %s)" % (ea, eb)
             return ("int", r if signed else wrapz(w, r))
+        if op == "^" and not signed:
+            return ("int", "(Z.lxor %s %s)" % (ea, eb))
         raise Unsupported("operator " + op)
     if k == "CompoundAssignOperator":
         op = n["opcode"]
@@ -572,11 +678,17 @@ def RV(n, st, cx):
         lv = LV(a, st, cx)
         old = read(lv, a, st, cx)
         vb = RV(b, st, cx)
-        if old[0] != "int" or vb[0] != "int" or op not in ("+=", "-=", "*="):
+        if old[0] != "int" or vb[0] != "int" or op not in ("+=", "-=", "*=", "^="):
             raise Unsupported("compound assignment " + op)
         w, signed = int_width(qual(a) if unconst(qual(a)) in UNSIGNED else desugared(a), cx)
-        r = "(%s %s %s)" % (old[1], op[0], vb[1])
-        v = ("int", r if signed else wrapz(w, r))
+        if op == "^=":
+            if signed:
+                raise Unsupported("compound assignment ^= on a signed value")
+            # the right operand is converted to the left type first; xor of two in-range values is in range
+            v = ("int", "(Z.lxor %s %s)" % (old[1], vb[1]))
+        else:
+            r = "(%s %s %s)" % (old[1], op[0], vb[1])
+            v = ("int", r if signed else wrapz(w, r))
         write(lv, v, a, st, cx)
         return read(lv, a, st, cx)
     if k == "UnaryOperator":
@@ -636,7 +748,36 @@ def arg_text(v):
         return "AZ %s" % v[1]
     if v[0] == "ptr" and v[2] == ():
         return "AP %s" % tok_text(v[1])
+    if v[0] == "ptroff":
+        return "APO %s %s" % (tok_text(v[1]), v[2])
+    if v[0] == "opq":
+        return "AOpaque %d" % v[1]
     raise Unsupported("call argument")
+
+import re as _re
+HELPERS = _re.compile(r"^(cbor_(byte)?string_set_handle|cbor_mark_(uint|negint)|cbor_set_(uint(8|16|32|64)|float[248]|bool|ctrl))$")
+CONSTRUCTORS = _re.compile(r"^cbor_(new|build)_[a-z0-9_]+$")
+STRUCT_CALLS = {"cbor_stream_decode"}
+
+def subst_arg(tok, vals):
+    if tok[0] == "arg":
+        v = vals[tok[1]]
+        if v[0] != "ptr" or v[2] != ():
+            raise Unsupported("footprint of a call through a non-pointer argument")
+        return v[1]
+    if tok[0] == "field":
+        return ("field", subst_arg(tok[1], vals), tok[2])
+    raise Unsupported("footprint token")
+
+def footprint(callee, vals, st, cx):
+    """invalidate what the listed callee may write (its table entry), in the caller's tokens"""
+    if callee.get("writes") is None or not cx.spec.get("precise"):
+        invalidate(st, cx, None, None)
+        return
+    keys = set()
+    for tok, path in callee["writes"]:
+        keys.add((subst_arg(tok, vals), path))
+    invalidate(st, cx, keys)
 
 def call(n, st, cx):
     f = cast.strip(n["inner"][0])
@@ -670,47 +811,99 @@ def call(n, st, cx):
             raise Unsupported("free of a non-pointer")
         st.reqs.append("ReqFree %s" % tok_text(v[1]))
         return ("void",)
-    if name in REFCOUNT and name != cx.spec["name"]:
+    ordered = cx.spec.get("ordered_decref")
+    if name in REFCOUNT and name != cx.spec["name"] and not (ordered and name == "cbor_intermediate_decref"):
         v = RV(args[0], st, cx)
         if v[0] != "ptr" or v[2] != ():
             raise Unsupported("reference-count call on a non-pointer")
         st.effs.append(((EFF_RANK[REFCOUNT[name]], tok_key(v[1])), "%s %s" % (REFCOUNT[name], tok_text(v[1])), None))
         return v if name != "cbor_intermediate_decref" else ("void",)
-    if name == "cbor_decref":
+    if name in ("cbor_decref", "cbor_intermediate_decref"):
         a = cast.strip(args[0])
-        if a.get("kind") == "UnaryOperator" and a.get("opcode") == "&":
+        v = None
+        if name == "cbor_intermediate_decref":
+            v = RV(args[0], st, cx)
+        elif a.get("kind") == "UnaryOperator" and a.get("opcode") == "&":
             x = a["inner"][0]
             v = read(LV(x, st, cx), x, st, cx)
-            if v[0] == "ptr" and v[2] == ():
+        if v is not None and v[0] == "ptr" and v[2] == ():
+            if ordered:
+                # in the decoder glue a release is an event: it is ordered with the other calls
+                st.reqs.append("ReqCall \"cbor_decref\" [AP %s]" % tok_text(v[1]))
+            else:
                 st.effs.append(((EFF_RANK["Decref"], tok_key(v[1])), "Decref %s" % tok_text(v[1]), None))
-                return ("void",)
+            return ("void",)
         raise Unsupported("cbor_decref argument")
+    if name == "memcpy":
+        vals = [RV(a, st, cx) for a in args]
+        if len(vals) != 3 or vals[0][0] != "ptr" or vals[1][0] != "ptr" or vals[2][0] != "int" or vals[0][2] != () or vals[1][2] != ():
+            raise Unsupported("memcpy arguments")
+        st.effs.append(((EFF_RANK["Copy"], tok_key(vals[0][1]), tok_key(vals[1][1])),
+                        "Copy %s %s %s" % (tok_text(vals[0][1]), tok_text(vals[1][1]), vals[2][1]), vals[0][1]))
+        return ("void",)
     if name in PURE_LEAF:
         vals = [RV(a, st, cx) for a in args]
         if any(v[0] != "int" for v in vals):
             raise Unsupported("leaf call argument")
         return ("int", "(%s %s)" % (PURE_LEAF[name], " ".join(v[1] for v in vals)))
-    if name in LISTED and name != cx.spec["name"]:
+    if name in STRUCT_CALLS and cx.spec.get("precise"):
         vals = [RV(a, st, cx) for a in args]
-        rk = node_kind_of_type(n, cx) if unconst(desugared(n)) != "void" else "void"
+        st.reqs.append("ReqCall \"%s\" [%s]" % (name, "; ".join(arg_text(v) for v in vals)))
+        k = st.nres
+        st.nres += 1
+        invalidate(st, cx, None, [v[1] for v in vals if v[0] == "ptr"])
+        return ("objv", ("res", k), ())
+    if HELPERS.match(name) and cx.spec.get("precise"):
+        vals = [RV(a, st, cx) for a in args]
+        st.reqs.append("ReqCall \"%s\" [%s]" % (name, "; ".join(arg_text(v) for v in vals)))
+        if vals and vals[0][0] == "ptr":
+            keys = set(k for k in list(st.ints) + list(st.ptrs) + list(cx.spec["fields"]) if derives(k[0], vals[0][1]))
+            invalidate(st, cx, keys)
+        return ("void",)
+    listed = LISTED_BY_NAME.get(name)
+    rk = "void" if unconst(desugared(n)) == "void" else node_kind_of_type(n, cx)
+    if rk == "ptr" and cx.spec.get("precise") and name != cx.spec["name"] and (listed is not None or CONSTRUCTORS.match(name)):
+        # a library constructor / pusher: an event with a NULL-or-not oracle, like an allocator call
+        vals = [RV(a, st, cx) for a in args]
+        k = st.nalloc
+        if k >= cx.spec["oracles"]:
+            raise Unsupported("more allocating calls on a path than declared")
+        st.reqs.append("ReqCall \"%s\" [%s]" % (name, "; ".join(arg_text(v) for v in vals)))
+        st.nalloc += 1
+        if listed is not None:
+            footprint(listed, vals, st, cx)
+        return ("ptr", ("new", k), ())
+    if listed is not None and (name != cx.spec["name"] or cx.spec.get("precise")):
+        vals = [RV(a, st, cx) for a in args]
         if rk not in ("int", "void"):
             raise Unsupported("opaque call returning a pointer")
-        k = st.ncall
-        if k >= cx.spec.get("calls", 0):
-            raise Unsupported("more opaque calls on a path than declared")
         st.reqs.append("ReqCall \"%s\" [%s]" % (name, "; ".join(arg_text(v) for v in vals)))
-        st.ncall += 1
-        cx.max_call = max(cx.max_call, st.ncall)
-        st.havoc = True
-        return ("int", "c_%d" % k) if rk == "int" else ("void",)
+        res = ("void",)
+        if rk == "int":
+            k = st.ncall
+            if k >= cx.spec.get("calls", 0):
+                raise Unsupported("more opaque calls on a path than declared")
+            st.ncall += 1
+            cx.max_call = max(cx.max_call, st.ncall)
+            res = ("int", "c_%d" % k)
+        elif not cx.spec.get("precise"):
+            k = st.ncall
+            if k >= cx.spec.get("calls", 0):
+                raise Unsupported("more opaque calls on a path than declared")
+            st.ncall += 1
+        if name == cx.spec["name"]:
+            invalidate(st, cx, None, None)       # the recursive call: anything may have changed
+        else:
+            footprint(listed, vals, st, cx)
+        return res
     fn = cx.function(name)
     if fn is not None and name != cx.spec["name"]:
         return inline(fn, args, st, cx)
     raise Unsupported("call of " + name)
 
 def inline(fn, args, st, cx):
-    """a small accessor defined in the library (cbor_array_is_definite, cbor_map_handle, ...):
-       evaluated in place; only straight-line bodies ending in a return"""
+    """a small accessor / setter defined in the library (cbor_array_is_definite, cbor_map_handle,
+       _cbor_stack_init, ...): evaluated in place; only straight-line bodies"""
     decl, body = fn
     if cx.depth >= 4:
         raise Unsupported("inlining depth")
@@ -735,6 +928,9 @@ def inline(fn, args, st, cx):
                 if not s.get("inner"):
                     return ("void",)
                 return RV(s["inner"][0], st, cx)
+            if k in ("BinaryOperator", "CompoundAssignOperator", "UnaryOperator", "CallExpr") and cx.spec.get("precise"):
+                RV(s, st, cx)
+                continue
             raise Unsupported("inlined body of %s: statement %s" % (decl.get("name"), k))
         return ("void",)
     finally:
@@ -743,11 +939,33 @@ def inline(fn, args, st, cx):
 # ------------------------------------------------------------------------------------------
 # statements (continuation-passing: `rest` is the list of statements that follow)
 
+def struct_local(d, cx):
+    """token of a local variable of struct type: named by its type, so that renaming or reordering
+       declarations changes nothing (two locals of one struct type are outside the subset)"""
+    t = unconst(desugared(d))
+    if t.startswith("struct ") and not t.endswith("*"):
+        return ("local", t)
+    return None
+
 def decl_stmt(s, st, cx):
     for d in s.get("inner", []):
         if d.get("kind") != "VarDecl":
             raise Unsupported("declaration")
         init = [x for x in d.get("inner", []) if x.get("kind") not in ("FullComment",) and not x.get("kind", "").endswith("Attr")]
+        tok = struct_local(d, cx)
+        if tok is not None and cx.spec.get("precise"):
+            cur = st.env.get(d.get("id"))
+            if cur != ("objv", tok, ()):
+                raise Unsupported("local of struct type")
+            if init and d.get("storageClass") != "static":
+                v = RV(init[-1], st, cx)
+                if v[0] == "init":
+                    write_init(tok, (), v[1], st, cx)
+                elif v[0] == "objv" and v[1][0] == "res":
+                    st.copies[(tok, ())] = (v[1], v[2])
+                else:
+                    raise Unsupported("initialiser of a struct local")
+            continue
         if not init:
             st.env[d.get("id")] = ("uninit",)
             continue
@@ -770,6 +988,35 @@ def has_kind(n, kinds):
         return any(has_kind(c, kinds) for c in n.get("inner", []))
     return False
 
+def is_macro_do(s):
+    body, cond = s["inner"]
+    c = cast.strip(cond)
+    return c.get("kind") == "IntegerLiteral" and int(c["value"]) == 0 and not has_kind(body, ("BreakStmt", "ContinueStmt"))
+
+def switch_groups(body, st, cx):
+    """[(labels, statements)] of a switch body; a label is ('case', value text) or ('default',)"""
+    groups = []
+    for x in body.get("inner", []):
+        if x.get("kind") in ("CaseStmt", "DefaultStmt"):
+            labels = []
+            while x.get("kind") in ("CaseStmt", "DefaultStmt"):
+                if x["kind"] == "CaseStmt":
+                    v = RV(x["inner"][0], st, cx)
+                    if v[0] != "int":
+                        raise Unsupported("case label")
+                    labels.append(("case", v[1]))
+                else:
+                    labels.append(("default",))
+                x = x["inner"][-1]
+            groups.append((labels, [x]))
+        elif x.get("kind") in ("NullStmt", "FullComment"):
+            continue
+        else:
+            if not groups:
+                raise Unsupported("statement before the first case label")
+            groups[-1][1].append(x)
+    return groups
+
 def S(stmts, st, cx):
     if not stmts:
         if cx.spec["ret"] != "void":
@@ -777,7 +1024,7 @@ def S(stmts, st, cx):
         return flush(st) + plan_text(("void",), st, cx)
     s, rest = stmts[0], stmts[1:]
     k = s.get("kind")
-    if k in ("ParagraphComment", "FullComment", "NullStmt"):
+    if k in ("ParagraphComment", "FullComment", "NullStmt", "#EndSwitch"):
         return S(rest, st, cx)
     if k == "CompoundStmt":
         return S([x for x in s.get("inner", [])] + rest, st, cx)
@@ -797,17 +1044,83 @@ def S(stmts, st, cx):
         t = S([then] + rest, st, cx)
         e = S(([els] if els else []) + rest, st2, cx)
         return pre + "(if %s then\n  %s\n  else\n  %s)" % (c, t, e)
-    if k == "DoStmt":
-        body, cond = s["inner"]
-        c = cast.strip(cond)
-        if not (c.get("kind") == "IntegerLiteral" and int(c["value"]) == 0) or has_kind(body, ("BreakStmt", "ContinueStmt")):
-            raise Unsupported("do-while loop")
-        return S([body] + rest, st, cx)
+    if k == "DoStmt" and is_macro_do(s):
+        return S([s["inner"][0]] + rest, st, cx)
     if k == "ForStmt":
         fill_loop(s, st, cx)
         return flush(st) + S(rest, st, cx)
-    if k in ("WhileStmt", "SwitchStmt", "GotoStmt", "LabelStmt", "BreakStmt", "ContinueStmt"):
-        raise Unsupported("statement " + k)
+    if not cx.spec.get("precise"):
+        if k in ("DoStmt", "WhileStmt", "SwitchStmt", "GotoStmt", "LabelStmt", "BreakStmt", "ContinueStmt"):
+            raise Unsupported("do-while loop" if k == "DoStmt" else "statement " + k)
+        RV(s, st, cx)
+        return flush(st) + S(rest, st, cx)
+    # ---- the decoder glue: switch / break, forward goto, loops as segments
+    if k in ("DoStmt", "WhileStmt"):
+        idx = cx.loops.get(s.get("id"))
+        if idx is None:
+            raise Unsupported("loop")
+        if idx not in cx.loop_rest:
+            cx.loop_rest[idx] = (s, rest)
+        return flush(st) + plan_text(("loop", idx), st, cx)    # control arrives at the head of loop idx
+    if k == "#DoTest":
+        c = truth(RV(s["cond"], st, cx), st, cx)
+        pre = flush(st)
+        st2 = st.clone()
+        t = plan_text(("loop", s["loop"]), st, cx)
+        e = S(rest, st2, cx)
+        return pre + "(if %s then\n  %s\n  else\n  %s)" % (c, t, e)
+    if k == "#WhileHead":
+        c = truth(RV(s["cond"], st, cx), st, cx)
+        pre = flush(st)
+        st2 = st.clone()
+        t = S([s["body"], {"kind": "#LoopBack", "loop": s["loop"]}], st, cx)
+        e = S(rest, st2, cx)
+        return pre + "(if %s then\n  %s\n  else\n  %s)" % (c, t, e)
+    if k == "#LoopBack":
+        return flush(st) + plan_text(("loop", s["loop"]), st, cx)
+    if k == "SwitchStmt":
+        inner = [x for x in s["inner"]]
+        v = RV(inner[0], st, cx)
+        if v[0] != "int":
+            raise Unsupported("switch on a non-integer")
+        sel = let_int(st, cx, "v_switch", v[1])
+        groups = switch_groups(inner[-1], st, cx)
+        pre = flush(st)
+        end = {"kind": "#EndSwitch"}
+        def chain(i):
+            out = []
+            for _, body in groups[i:]:
+                out += body
+            return out + [end] + rest
+        default = None
+        arms = []
+        for i, (labels, _) in enumerate(groups):
+            vals = [l[1] for l in labels if l[0] == "case"]
+            if any(l[0] == "default" for l in labels):
+                default = i
+            if vals:
+                arms.append((vals, i))
+        txt = S(chain(default), st.clone(), cx) if default is not None else S(rest, st.clone(), cx)
+        for vals, i in reversed(arms):
+            c = " || ".join("(%s =? %s)" % (sel, x) for x in vals)
+            txt = "(if (%s) then\n  %s\n  else\n  %s)" % (c, S(chain(i), st.clone(), cx), txt)
+        return pre + txt
+    if k == "BreakStmt":
+        for i, x in enumerate(rest):
+            if x.get("kind") == "#EndSwitch":
+                return S(rest[i + 1:], st, cx)
+            if x.get("kind") in ("#DoTest", "#LoopBack"):
+                break
+        raise Unsupported("break out of a loop")
+    if k == "ContinueStmt":
+        raise Unsupported("statement ContinueStmt")
+    if k == "LabelStmt":
+        return S([s["inner"][-1]] + rest, st, cx)
+    if k == "GotoStmt":
+        target = cx.labels.get(s.get("targetLabelDeclId"))
+        if target is None:
+            raise Unsupported("goto")
+        return S(list(target), st, cx)
     # expression statement
     RV(s, st, cx)
     return flush(st) + S(rest, st, cx)
@@ -849,7 +1162,9 @@ def fill_loop(s, st, cx):
 
 def plan_text(v, st, cx):
     want = cx.spec["ret"]
-    if v[0] == "void":
+    if v[0] == "loop":
+        r = "(RLoop %d)" % v[1]
+    elif v[0] == "void":
         if want != "void":
             raise Unsupported("return without a value")
         r = "RVoid"
@@ -866,9 +1181,11 @@ def plan_text(v, st, cx):
     fields = []
     declared = cx.spec["fields"]
     for key, nm in sorted(declared.items(), key=lambda kv: kv[1]):
+        if key[0][0] == "res":
+            continue                 # a field of a call result is an input (an oracle), never an output
         if key in st.ints:
             val = st.ints[key]
-        elif st.havoc:
+        elif is_invalid(key, st, cx) or reach_invalid(key, st):
             continue                 # unknown after an opaque call: not reported
         else:
             val = "f_" + nm
@@ -877,7 +1194,7 @@ def plan_text(v, st, cx):
     for k in range(st.nalloc):
         if ("ReqFree %s" % tok_text(("new", k))) in st.reqs:
             freed.add(("new", k))
-    effs = [e for e in st.effs if not (e[0][0] in (EFF_RANK["Store"], EFF_RANK["Fill"]) and e[2] in freed)]
+    effs = [e for e in st.effs if not (e[0][0] in (EFF_RANK["Store"], EFF_RANK["Fill"], EFF_RANK["Copy"]) and e[2] in freed)]
     for (tok, path), pv in st.ptrs.items():
         if tok in freed:
             continue
@@ -895,42 +1212,118 @@ def plan_text(v, st, cx):
 # the functions
 
 def loc(s):
-    """'0->metadata.end_ptr' / '0->data->chunk_count' -> (token, path)"""
+    """'0->metadata.end_ptr' / '0->data->chunk_count' / 'L(struct _cbor_stack)->size' / 'R0->status'
+       -> (token, path)"""
     parts = s.split("->")
-    tok = ("arg", int(parts[0]))
+    root = parts[0]
+    if root.startswith("L(") and root.endswith(")"):
+        tok = ("local", root[2:-1])
+    elif root.startswith("R"):
+        tok = ("res", int(root[1:]))
+    else:
+        tok = ("arg", int(root))
     for mid in parts[1:-1]:
         tok = ("field", tok, mid)
     return (tok, tuple(parts[-1].split(".")))
 
-def F(rel, name, params, fields=None, oracles=0, calls=0, ret="int"):
-    return {"rel": rel, "name": name, "params": params, "oracles": oracles, "calls": calls, "ret": ret,
-            "fields": {loc(k): v for k, v in (fields or {}).items()}}
+def F(rel, name, params, fields=None, oracles=0, calls=0, ret="int", writes=None, group="containers",
+      post=None, loops=0, **kw):
+    d = {"rel": rel, "name": name, "params": params, "oracles": oracles, "calls": calls, "ret": ret,
+         "fields": {loc(k): v for k, v in (fields or {}).items()},
+         "writes": None if writes is None else [loc(w) for w in writes], "group": group, "loops": loops}
+    if group != "containers":
+        d["precise"] = True
+        d["ordered_decref"] = True
+        d["post"] = {loc(k): v for k, v in (post or {}).items()}
+    d.update(kw)
+    return d
 
 ARR = {"0->metadata.type": "dst", "0->metadata.end_ptr": "end_ptr", "0->metadata.allocated": "allocated"}
 CHK = {"0->data->chunk_count": "chunk_count", "0->data->chunk_capacity": "chunk_capacity"}
+W_ARR = ["0->metadata.end_ptr", "0->metadata.allocated", "0->data"]     # what an append may write
+W_CHK = ["0->data->chunk_count", "0->data->chunk_capacity", "0->data->chunks"]
+W_STK = ["0->size", "0->top"]
+
+# the decoder glue (group "load"): builder_callbacks.c and cbor_load
+CTX = "0"     # the context parameter of a callback
+def ctx_fields(c, top=True, flags=("creation_failed", "syntax_error")):
+    d = {c + "->stack->size": "size"}
+    for f_ in flags:
+        d[c + "->" + f_] = f_
+    if top:
+        d[c + "->stack->top->subitems"] = "subitems"
+        d[c + "->stack->top->item->type"] = "top_type"
+        d[c + "->stack->top->item->metadata.type"] = "top_dst"
+    return d
+LEAF = dict(fields=ctx_fields("0", top=False, flags=("creation_failed",)), oracles=1, ret="void", group="load")
+def leaf_cb(name, kinds):
+    return F("cbor/internal/builder_callbacks.c", name, kinds, **LEAF)
+STACK_T = "L(struct _cbor_stack)"
+CTX_T = "L(struct _cbor_decoder_context)"
 
 FUNCTIONS = [
-    F("cbor/arrays.c", "cbor_array_push", ["ptr", "ptr"], ARR, oracles=1),
-    F("cbor/arrays.c", "cbor_array_get", ["ptr", "int"], ARR, ret="ptr"),
-    F("cbor/arrays.c", "cbor_array_replace", ["ptr", "int", "ptr"], ARR),
-    F("cbor/arrays.c", "cbor_array_set", ["ptr", "int", "ptr"], ARR, calls=1),
-    F("cbor/arrays.c", "cbor_new_definite_array", ["int"], {}, oracles=2, ret="ptr"),
-    F("cbor/arrays.c", "cbor_new_indefinite_array", [], {}, oracles=1, ret="ptr"),
-    F("cbor/maps.c", "_cbor_map_add_key", ["ptr", "ptr"], ARR, oracles=1),
-    F("cbor/maps.c", "_cbor_map_add_value", ["ptr", "ptr"], ARR),
-    F("cbor/maps.c", "cbor_map_add", ["ptr", "obj"], {}, calls=2),
-    F("cbor/maps.c", "cbor_new_definite_map", ["int"], {}, oracles=2, ret="ptr"),
-    F("cbor/bytestrings.c", "cbor_bytestring_add_chunk", ["ptr", "ptr"], CHK, oracles=1),
-    F("cbor/strings.c", "cbor_string_add_chunk", ["ptr", "ptr"], CHK, oracles=1),
-    F("cbor/tags.c", "cbor_new_tag", ["int"], {}, oracles=1, ret="ptr"),
-    F("cbor/tags.c", "cbor_tag_set_item", ["ptr", "ptr"], {}, ret="void"),
-    F("cbor/tags.c", "cbor_tag_item", ["ptr"], {}, ret="ptr"),
-    F("cbor/common.c", "cbor_incref", ["ptr"], {"0->refcount": "refcount"}, ret="ptr"),
-    F("cbor/common.c", "cbor_move", ["ptr"], {"0->refcount": "refcount"}, ret="ptr"),
-    F("cbor/internal/stack.c", "_cbor_stack_push", ["ptr", "ptr", "int"], {"0->size": "size"}, oracles=1, ret="ptr"),
-    F("cbor/internal/stack.c", "_cbor_stack_pop", ["ptr"], {"0->size": "size"}, ret="void"),
+    F("cbor/arrays.c", "cbor_array_push", ["ptr", "ptr"], ARR, oracles=1, writes=W_ARR),
+    F("cbor/arrays.c", "cbor_array_get", ["ptr", "int"], ARR, ret="ptr", writes=[]),
+    F("cbor/arrays.c", "cbor_array_replace", ["ptr", "int", "ptr"], ARR, writes=[]),
+    F("cbor/arrays.c", "cbor_array_set", ["ptr", "int", "ptr"], ARR, calls=1, writes=W_ARR),
+    F("cbor/arrays.c", "cbor_new_definite_array", ["int"], {}, oracles=2, ret="ptr", writes=[]),
+    F("cbor/arrays.c", "cbor_new_indefinite_array", [], {}, oracles=1, ret="ptr", writes=[]),
+    F("cbor/maps.c", "_cbor_map_add_key", ["ptr", "ptr"], ARR, oracles=1, writes=W_ARR),
+    F("cbor/maps.c", "_cbor_map_add_value", ["ptr", "ptr"], ARR, writes=[]),
+    F("cbor/maps.c", "cbor_map_add", ["ptr", "obj"], {}, calls=2, writes=W_ARR),
+    F("cbor/maps.c", "cbor_new_definite_map", ["int"], {}, oracles=2, ret="ptr", writes=[]),
+    F("cbor/bytestrings.c", "cbor_bytestring_add_chunk", ["ptr", "ptr"], CHK, oracles=1, writes=W_CHK),
+    F("cbor/strings.c", "cbor_string_add_chunk", ["ptr", "ptr"], CHK, oracles=1, writes=W_CHK),
+    F("cbor/tags.c", "cbor_new_tag", ["int"], {}, oracles=1, ret="ptr", writes=[]),
+    F("cbor/tags.c", "cbor_tag_set_item", ["ptr", "ptr"], {}, ret="void", writes=["0->metadata.tagged_item"]),
+    F("cbor/tags.c", "cbor_tag_item", ["ptr"], {}, ret="ptr", writes=[]),
+    F("cbor/common.c", "cbor_incref", ["ptr"], {"0->refcount": "refcount"}, ret="ptr", writes=["0->refcount"]),
+    F("cbor/common.c", "cbor_move", ["ptr"], {"0->refcount": "refcount"}, ret="ptr", writes=["0->refcount"]),
+    F("cbor/internal/stack.c", "_cbor_stack_push", ["ptr", "ptr", "int"], {"0->size": "size"}, oracles=1, ret="ptr", writes=W_STK),
+    F("cbor/internal/stack.c", "_cbor_stack_pop", ["ptr"], {"0->size": "size"}, ret="void", writes=W_STK),
+    # ---- decoder glue
+    F("cbor/internal/builder_callbacks.c", "_cbor_builder_append", ["ptr", "ptr"], ctx_fields("1"), calls=1, ret="void",
+      group="load"),
+    F("cbor/internal/builder_callbacks.c", "_cbor_is_indefinite", ["ptr"], {"0->type": "type", "0->metadata.type": "dst"},
+      group="load", writes=[]),
+    F("cbor/internal/builder_callbacks.c", "cbor_builder_indef_break_callback", ["ptr"],
+      ctx_fields("0", flags=("syntax_error",)), calls=1, ret="void", group="load"),
+    F("cbor/internal/builder_callbacks.c", "cbor_builder_byte_string_callback", ["ptr", "ptr", "int"],
+      ctx_fields("0", flags=("creation_failed",)), oracles=2, calls=1, ret="void", group="load"),
+    F("cbor/internal/builder_callbacks.c", "cbor_builder_string_callback", ["ptr", "ptr", "int"],
+      ctx_fields("0", flags=("creation_failed",)), oracles=2, calls=1, ret="void", group="load"),
+    F("cbor/internal/builder_callbacks.c", "cbor_builder_array_start_callback", ["ptr", "int"],
+      ctx_fields("0", top=False, flags=("creation_failed",)), oracles=2, ret="void", group="load"),
+    F("cbor/internal/builder_callbacks.c", "cbor_builder_map_start_callback", ["ptr", "int"],
+      ctx_fields("0", top=False, flags=("creation_failed",)), oracles=2, ret="void", group="load"),
+    F("cbor/internal/builder_callbacks.c", "cbor_builder_indef_array_start_callback", ["ptr"],
+      ctx_fields("0", top=False, flags=("creation_failed",)), oracles=2, ret="void", group="load"),
+    F("cbor/internal/builder_callbacks.c", "cbor_builder_indef_map_start_callback", ["ptr"],
+      ctx_fields("0", top=False, flags=("creation_failed",)), oracles=2, ret="void", group="load"),
+    F("cbor/internal/builder_callbacks.c", "cbor_builder_byte_string_start_callback", ["ptr"],
+      ctx_fields("0", top=False, flags=("creation_failed",)), oracles=2, ret="void", group="load"),
+    F("cbor/internal/builder_callbacks.c", "cbor_builder_string_start_callback", ["ptr"],
+      ctx_fields("0", top=False, flags=("creation_failed",)), oracles=2, ret="void", group="load"),
+    F("cbor/internal/builder_callbacks.c", "cbor_builder_tag_callback", ["ptr", "int"],
+      ctx_fields("0", top=False, flags=("creation_failed",)), oracles=2, ret="void", group="load"),
+    leaf_cb("cbor_builder_uint8_callback", ["ptr", "int"]), leaf_cb("cbor_builder_uint16_callback", ["ptr", "int"]),
+    leaf_cb("cbor_builder_uint32_callback", ["ptr", "int"]), leaf_cb("cbor_builder_uint64_callback", ["ptr", "int"]),
+    leaf_cb("cbor_builder_negint8_callback", ["ptr", "int"]), leaf_cb("cbor_builder_negint16_callback", ["ptr", "int"]),
+    leaf_cb("cbor_builder_negint32_callback", ["ptr", "int"]), leaf_cb("cbor_builder_negint64_callback", ["ptr", "int"]),
+    leaf_cb("cbor_builder_float2_callback", ["ptr", "float"]), leaf_cb("cbor_builder_float4_callback", ["ptr", "float"]),
+    leaf_cb("cbor_builder_float8_callback", ["ptr", "float"]),
+    leaf_cb("cbor_builder_null_callback", ["ptr"]), leaf_cb("cbor_builder_undefined_callback", ["ptr"]),
+    leaf_cb("cbor_builder_boolean_callback", ["ptr", "int"]),
+    F("cbor.c", "cbor_load", ["ptr", "int", "ptr"],
+      {"2->read": "read", "2->error.code": "code", "2->error.position": "position",
+       "R0->status": "status", "R0->read": "dread",
+       STACK_T + "->size": "size", CTX_T + "->creation_failed": "creation_failed", CTX_T + "->syntax_error": "syntax_error"},
+      post={STACK_T + "->size": "size", CTX_T + "->creation_failed": "creation_failed", CTX_T + "->syntax_error": "syntax_error"},
+      ret="ptr", group="load", loops=2),
 ]
 LISTED = {f["name"] for f in FUNCTIONS}
+LISTED_BY_NAME = {f["name"]: f for f in FUNCTIONS}
+GROUPS = {"containers": "Gen_effects.v", "load": "Gen_effects_load.v"}
 
 def gname(name):
     return "G" + name
@@ -940,6 +1333,8 @@ def signature(spec, pnames=None):
     b = []
     for _, nm in sorted(spec["fields"].items(), key=lambda kv: kv[1]):
         b.append("(f_%s : Z)" % nm)
+    for _, nm in sorted(spec.get("post", {}).items(), key=lambda kv: kv[1]):
+        b.append("(g_%s : Z)" % nm)
     for i, kd in enumerate(spec["params"]):
         if kd == "int":
             b.append("(v_p%d : Z)" % i)
@@ -949,7 +1344,16 @@ def signature(spec, pnames=None):
         b.append("(c_%d : Z)" % k)
     return " ".join(b)
 
+def all_nodes(n):
+    if isinstance(n, dict):
+        yield n
+        for c in n.get("inner", []):
+            for x in all_nodes(c):
+                yield x
+
 def translate_function(spec, cfg, sizes, alltu):
+    """-> [(name suffix, Gallina definition)]: the function from its entry, then from the head of
+       each of its loops"""
     src = os.path.join(cast.REPO, "src", spec["rel"])
     tu = load_tu(src, cfg["incs"], cfg["defs"])
     if spec["name"] not in tu["functions"]:
@@ -976,18 +1380,73 @@ def translate_function(spec, cfg, sizes, alltu):
                 raise Unsupported("parameter kind changed")
             st.env[p.get("id")] = ("objv", ("arg", i), ())
             cx.byvalue.add(("arg", i))
+        elif kd == "float":
+            if unconst(t) not in ("float", "double"):
+                raise Unsupported("parameter kind changed")
+            st.env[p.get("id")] = ("opq", i)
     rt = unconst(decl.get("type", {}).get("qualType", "").split("(")[0].strip())
     want = "void" if rt == "void" else ("ptr" if rt.endswith("*") else "int")
     if want != spec["ret"]:
         raise Unsupported("return type changed")
-    txt = S([body], st, cx)
-    return "Definition %s %s : plan :=\n  %s." % (gname(spec["name"]), signature(spec), txt)
+    if not spec.get("precise"):
+        txt = S([body], st, cx)
+        return [("", "Definition %s %s : plan :=\n  %s." % (gname(spec["name"]), signature(spec), txt))]
+    # struct locals are objects named by their type; labels; loops in source order
+    seen = {}
+    scalars = []
+    for n in all_nodes(body):
+        if n.get("kind") == "VarDecl":
+            tok = struct_local(n, cx)
+            if tok is not None:
+                if tok in seen:
+                    raise Unsupported("two locals of type " + tok[1])
+                seen[tok] = n.get("id")
+                st.env[n.get("id")] = ("objv", tok, ())
+            else:
+                scalars.append(n.get("id"))
+    top = [x for x in body.get("inner", [])]
+    for i, x in enumerate(top):
+        if x.get("kind") == "LabelStmt":
+            cx.labels[x.get("declId")] = top[i:]
+    for n in all_nodes(body):
+        if n.get("kind") == "LabelStmt" and n.get("declId") not in cx.labels:
+            raise Unsupported("label inside a block")
+        if n.get("kind") == "WhileStmt" or (n.get("kind") == "DoStmt" and not is_macro_do(n)):
+            cx.loops[n.get("id")] = len(cx.loops)
+        if n.get("kind") == "ForStmt" and False:
+            pass
+    if len(cx.loops) != spec.get("loops", 0):
+        raise Unsupported("number of loops changed")
+    env0 = dict(st.env)
+    out = [("", "Definition %s %s : plan :=\n  %s." % (gname(spec["name"]), signature(spec), S([body], st, cx)))]
+    for idx in range(len(cx.loops)):
+        if idx not in cx.loop_rest:
+            raise Unsupported("loop %d is not reached" % idx)
+        node, rest = cx.loop_rest[idx]
+        st = St()
+        st.env = dict(env0)
+        for sid in scalars:
+            st.env[sid] = ("stale",)
+        if node["kind"] == "DoStmt":
+            b, cond = node["inner"]
+            stmts = [b, {"kind": "#DoTest", "cond": cond, "loop": idx}] + rest
+        else:
+            inner = [x for x in node["inner"]]
+            stmts = [{"kind": "#WhileHead", "cond": inner[0], "body": inner[-1], "loop": idx}] + rest
+        out.append(("_loop%d" % idx, "Definition %s_loop%d %s : plan :=\n  %s." % (gname(spec["name"]), idx, signature(spec), S(stmts, st, cx))))
+    return out
 
 def translate_all(cfg, sizes):
     out, notes = [], []
     alltu = {}
     for spec in FUNCTIONS:
         src = os.path.join(cast.REPO, "src", spec["rel"])
+        try:
+            alltu[src] = load_tu(src, cfg["incs"], cfg["defs"])
+        except RuntimeError:
+            pass
+    for extra in ("cbor/common.c", "cbor/ints.c", "cbor/floats_ctrls.c"):
+        src = os.path.join(cast.REPO, "src", extra)
         try:
             alltu[src] = load_tu(src, cfg["incs"], cfg["defs"])
         except RuntimeError:
@@ -1001,48 +1460,73 @@ def translate_all(cfg, sizes):
         except RuntimeError as e:
             notes.append("%s: clang: %s" % (spec["name"], str(e)[:120]))
             out.append((spec, None))
-        except (KeyError, IndexError, TypeError, ValueError, AttributeError) as e:
+        except (KeyError, IndexError, TypeError, ValueError, AttributeError, RecursionError) as e:
             notes.append("%s: unexpected AST shape (%s: %s)" % (spec["name"], type(e).__name__, str(e)[:80]))
             out.append((spec, None))
     enums = {}
-    for nm in ("_CBOR_METADATA_DEFINITE", "_CBOR_METADATA_INDEFINITE", "CBOR_TYPE_ARRAY", "CBOR_TYPE_MAP", "CBOR_TYPE_TAG"):
+    for nm in ENUMS:
         for tu in alltu.values():
             if nm in tu["enums"]:
                 enums[nm] = tu["enums"][nm]
                 break
     return out, notes, enums
 
-def emit(fns, enums, conf=None):
+ENUMS = ("_CBOR_METADATA_DEFINITE", "_CBOR_METADATA_INDEFINITE", "CBOR_TYPE_ARRAY", "CBOR_TYPE_MAP", "CBOR_TYPE_TAG")
+ENUMS_LOAD = ("CBOR_TYPE_BYTESTRING", "CBOR_TYPE_STRING", "CBOR_ERR_NONE", "CBOR_ERR_NOTENOUGHDATA", "CBOR_ERR_NODATA",
+              "CBOR_ERR_MALFORMATED", "CBOR_ERR_MEMERROR", "CBOR_ERR_SYNTAXERROR", "CBOR_DECODER_FINISHED",
+              "CBOR_DECODER_NEDATA", "CBOR_DECODER_ERROR")
+
+def emit(fns, enums, conf=None, group="containers", alltu_enums=None):
     lines = ["(* GENERATED by translator/effects.py from the clang AST of /repo/src — do not edit *)",
              "From Coq Require Import ZArith List Bool String.", "Import ListNotations.",
-             "From CB Require Import GenLeafTypes HPlans.",
+             "From CB Require Import GenLeafTypes HPlans%s." % (" HPlansLoad" if group == "load" else ""),
              "Local Open Scope string_scope.", "Local Open Scope Z_scope.", "Local Open Scope bool_scope.", ""]
-    for nm in ("_CBOR_METADATA_DEFINITE", "_CBOR_METADATA_INDEFINITE", "CBOR_TYPE_ARRAY", "CBOR_TYPE_MAP", "CBOR_TYPE_TAG"):
-        if nm in enums:
-            lines.append("Definition E%s : Z := %d." % (nm, enums[nm]))
+    names = ENUMS if group == "containers" else ENUMS_LOAD
+    table = enums if group == "containers" else (alltu_enums or {})
+    for nm in names:
+        if nm in table:
+            lines.append("Definition E%s : Z := %d." % (nm, table[nm]))
         else:
             lines.append("Definition E%s : Z := fbE%s." % (nm, nm))
     lines.append("")
-    for spec, txt in fns:
+    for spec, segs in fns:
+        if spec.get("group", "containers") != group:
+            continue
         name = spec["name"]
-        if txt is None:
+        if segs is None:
             lines.append("(* %s: outside the supported subset — tied by correspondence only *)" % name)
             extra = ""
             if name == "_cbor_stack_push":      # the fallback takes the configured limit
                 extra = " %s%%N" % int((conf or {}).get("CBOR_MAX_STACK_SIZE", 2048))
-            lines.append("Definition %s := fbplan_%s%s." % (gname(name), name.lstrip("_"), extra))
+            for suffix in [""] + ["_loop%d" % i for i in range(spec.get("loops", 0))]:
+                lines.append("Definition %s%s := fbplan_%s%s%s." % (gname(name), suffix, name.lstrip("_"), suffix, extra))
             lines.append("Definition %s_supported : bool := false." % gname(name))
         else:
-            lines.append(txt)
+            for _, txt in segs:
+                lines.append(txt)
             lines.append("Definition %s_supported : bool := true." % gname(name))
         lines.append("")
     return "\n".join(lines)
 
+def load_enums(cfg):
+    """the enumerators the decoder-glue plans mention, from cbor.c's translation unit"""
+    out = {}
+    for rel in ("cbor.c", "cbor/internal/builder_callbacks.c"):
+        try:
+            tu = load_tu(os.path.join(cast.REPO, "src", rel), cfg["incs"], cfg["defs"])
+        except RuntimeError:
+            continue
+        for nm in ENUMS_LOAD:
+            if nm in tu["enums"]:
+                out[nm] = tu["enums"][nm]
+    return out
+
 if __name__ == "__main__":
     import sys
     cfg = json.load(open(sys.argv[1]))
+    group = sys.argv[2] if len(sys.argv) > 2 else "containers"
     sizes = {"sizeof_isd": 24, "sizeof_item": 48, "sizeof_pair": 16, "sizeof_ptr": 8, "sizeof_rec": 24}
     fns, notes, enums = translate_all(cfg, sizes)
-    sys.stdout.write(emit(fns, enums, cfg.get("conf")))
+    sys.stdout.write(emit(fns, enums, cfg.get("conf"), group, load_enums(cfg)))
     for n_ in notes:
         sys.stderr.write("translator_unsupported:" + n_ + "\n")
